@@ -57,20 +57,25 @@ def snapshot(v, memo=None):
     return v
 
 
-def fresh_like(ip, v, name):
+def _mk(det):
+    return (lambda n, s: z3.Const(n, s)) if det else fresh
+
+
+def fresh_like(ip, v, name, det=False):
     """A fresh symbolic value of the same python type as v."""
+    mk = _mk(det)
     if isinstance(v, bool) or is_sym_bool(v):
-        return fresh(name, z3.BoolSort())
+        return mk(name, z3.BoolSort())
     if isinstance(v, int) or is_sym_int(v):
-        return fresh(name, I)
+        return mk(name, I)
     if is_bytes(v):
-        return sym_bytes(fresh(name, BYTES))
+        return sym_bytes(mk(name, BYTES))
     if isinstance(v, (str, SStr)):
-        return SStr(fresh(name, STR))
+        return SStr(mk(name, STR))
     if isinstance(v, (float, SF)):
-        return SF(fresh(name, F))
+        return SF(mk(name, F))
     if isinstance(v, SV):
-        return SV(fresh(name, VAL))
+        return SV(mk(name, VAL))
     return None
 
 
@@ -102,21 +107,22 @@ def havoc_value(ip, v, name):
     return v
 
 
-def havoc_inplace(ip, o, name):
+def havoc_inplace(ip, o, name, det=False):
+    mk = _mk(det)
     if isinstance(o, ZList):
-        o.arr = fresh(name + '_arr', o.arr.sort())
-        o.ln = fresh(name + '_len', I)
+        o.arr = mk(name + '_arr', o.arr.sort())
+        o.ln = mk(name + '_len', I)
         ip.ctx.assume(o.ln >= 0)
         return
     if isinstance(o, HDict):
-        o.maps = {sp: fresh(f'{name}_{sp}', z3.ArraySort(s, VAL)) for sp, s in HDict.SPACES.items()}
+        o.maps = {sp: mk(f'{name}_{sp}', z3.ArraySort(s, VAL)) for sp, s in HDict.SPACES.items()}
         return
     if isinstance(o, HObj):
         for k, x in list(o.f.items()):
             if isinstance(x, (ZList, HDict, HObj)):
-                havoc_inplace(ip, x, f'{name}.{k}')
+                havoc_inplace(ip, x, f'{name}.{k}', det)
             else:
-                r = fresh_like(ip, x, f'{name}.{k}')
+                r = fresh_like(ip, x, f'{name}.{k}', det)
                 if r is not None:
                     o.f[k] = r
         return
@@ -124,6 +130,18 @@ def havoc_inplace(ip, o, name):
 
 
 # ------------------------------------------------------------------------------------------------
+def val_equiv(va, vb):
+    """equality of dict values; lists of bytes are compared by contents (length, kind, items)"""
+    if va.eq(vb):
+        return z3.BoolVal(True)
+    j = fresh('j', I)
+    V = VAL
+    lists = z3.And(V.is_vblist(va), V.is_vblist(vb), V.ll(va) == V.ll(vb), V.lt(va) == V.lt(vb),
+                   z3.ForAll([j], z3.Implies(z3.And(j >= 0, j < V.ll(va)),
+                                             z3.Select(V.la(va), j) == z3.Select(V.la(vb), j))))
+    return z3.Or(va == vb, lists)
+
+
 def same_value(ip, a, b, label, out, seen=None, prefix=''):
     """Append obligations (label, z3 Bool) stating that a and b are the same value / have the same
     contents.  Structural for heap objects; skolemised for arrays."""
@@ -159,7 +177,7 @@ def same_value(ip, a, b, label, out, seen=None, prefix=''):
     if isinstance(a, HDict) and isinstance(b, HDict):
         for sp, srt in HDict.SPACES.items():
             k = fresh(f'k{sp}', srt)
-            out.append((f'{label}[{sp}]', z3.Select(a.maps[sp], k) == z3.Select(b.maps[sp], k)))
+            out.append((f'{label}[{sp}]', val_equiv(z3.Select(a.maps[sp], k), z3.Select(b.maps[sp], k))))
         return
     if isinstance(a, HByteArray) and isinstance(b, HByteArray):
         return same_value(ip, a.v, b.v, label, out, seen)
